@@ -68,6 +68,14 @@ CLAIMS["C06"] = ("dkgnet", "property-based testing (rapid) of real DKG processes
     "Real-time protocol (seconds per case): tens to hundreds of cases per run; message loss not generated.", "DESIGN.md §3 C06")
 ENGINES_EXTRA.append({"name": "dkgnet", "path": "harness/dkgnet", "serves_properties": ["C06", "C08", "C09"], "kind_free_text": "real dkg.Process + bolt dkg.db per node on an in-memory DKGClient bus with delivery policies and packet interception"})
 
+CLAIMS["C09"] = ("dkgnet", "property-based testing (rapid): capture-and-mutate of real DKG gossip packets (single-field mutations, re-signing, key substitution, entitlement) delivered to real processes; oracle = rejection + byte-identical store + pristine twin accepted",
+    "Pristine packets come from the real sender; each case derives one forgery from the catalogue and requires rejection with unchanged records on a real victim process, then acceptance of the pristine twin.",
+    "One network shape (4 members, optional leaver, one joiner); epoch 2 proposals.", "DESIGN.md §3 C09")
+
+CLAIMS["C08"] = ("dkgnet", "stateful property-based testing (rapid state machine) of real DKG processes with real stores against an independent transition relation and store invariants after every step",
+    "Histories of operator commands, valid and invalid proposals and real executions on five real processes; after each step every node's current/finished records are compared with the previous snapshot under the harness's own legal-transition relation and preservation invariants.",
+    "Real-time executions limit depth (epoch 2-3); TimedOut not generated.", "DESIGN.md §3 C08")
+
 PENDING_REASON = "check not built yet in this session (planned, see DESIGN.md §3); not claimed until it exists and is silent on the unchanged tree"
 
 
